@@ -16,6 +16,7 @@ import (
 //     end), a nested scanner's stmt/Scan, or a helper reaching one of those;
 //   - exit at the end: the result of that call is compared with the end marker
 //     (eos, io.EOF or a non-nil error) somewhere in the loop (condition or body).
+//
 // Loops that range over a finite collection or count up to a bound that the
 // body does not modify terminate by themselves and are listed as such.
 const ruleTextLoopProgress = "every loop of the statement scanner makes progress: on every path through one iteration a call consumes input (Scanner.next, a nested scanner's stmt, or a helper reaching them) and the end marker returned by that call (eos / io.EOF / an error) is tested in the loop; range loops and counted loops over unmodified bounds are finite by construction"
